@@ -162,14 +162,18 @@ class ServerConfig:
         """Get access control configuration.
 
         Returns:
-            AccessControlConfig instance if enabled and lists are configured,
+            AccessControlConfig instance if enabled and the configured policy
+            restricts anything (list entries or a default-deny policy),
             None otherwise.
         """
         if not self.enable_access_control:
             return None
 
         if not (self.access_control_allow_list or self.access_control_deny_list):
-            return None
+            # Nothing listed: with default_allow everybody is admitted anyway,
+            # but a default-deny policy still has to be enforced
+            if self.access_control_default_allow:
+                return None
 
         return AccessControlConfig(
             allow_list=self.access_control_allow_list,
